@@ -22,6 +22,23 @@ pub fn realise(case: &Value) -> Vec<(String, Value, Value, DecodedMap)> {
                 v.push((how, json!([m.clone()]), json!([]), DecodedMap::Regular(sm)));
             }
         }
+        if case.get("how").is_none() {
+            // the map reached through its in-place setters (after construction, with whatever root it has): what its
+            // getters report afterwards is what writing and reading back must preserve
+            if let Some(mut sm) = build(&m, "new") {
+                let key = m["toks"].as_array().map_or(0, |a| a.len()) as u32;
+                let n = sm.get_source_count();
+                if key % 3 == 1 { sm.set_source_root(Some("moved/ü")); }
+                if n > 0 {
+                    sm.set_source(key % n, if key % 2 == 0 { "renamed/é.js" } else { "/abs/renamed.js" });
+                    sm.set_source_contents((key + 1) % n, if key % 4 == 0 { None } else { Some("patched();") });
+                }
+                if key % 5 == 2 { sm.set_source_root(None::<String>); }
+                if key % 2 == 1 { sm.set_file(Some("f2.js")); }
+                if n > 0 && key % 3 == 0 { sm.add_to_ignore_list(key % n); }
+                v.push(("new+setters".to_string(), json!([]), json!([]), DecodedMap::Regular(sm)));
+            }
+        }
         if case.get("sources").is_none() && case.get("how").is_none() {
             // the same token list over string tables whose entries are all EQUAL strings: tokens that
             // differ only in which duplicate entry they reference are still different tokens
@@ -122,6 +139,11 @@ pub fn gen_model(rng: &mut Rng, size: usize, with_range: bool) -> Value {
     let uniq = rng.chance(1, 2);
     let sources: Vec<Value> = (0..nsrc).map(|i| if uniq { cps(&format!("src/ü{}.js", i)) } else if rng.chance(1, 3) { cps(&gen_src_name(rng)) } else { cps(*rng.pick(SRC_POOL)) }).collect();
     let names: Vec<Value> = (0..nnm).map(|i| if uniq { json!(format!("n{}", i)) } else { json!(*rng.pick(NAME_POOL)) }).collect();
+    // the same spelling in two tables: some names are spelled exactly like a source (the tables are separate)
+    let mut names = names;
+    if !sources.is_empty() && rng.chance(1, 4) {
+        for n in names.iter_mut() { if rng.chance(1, 2) { *n = json!(cps_to_string(rng.pick(&sources))); } }
+    }
     let mut m = json!({"op": "map", "toks": toks, "nsrc": nsrc, "nnm": nnm, "sources": sources, "names": names});
     if rng.chance(1, 2) { m["root"] = json!([if rng.chance(1, 3) { cps(&gen_root_name(rng)) } else { cps(*rng.pick(ROOT_POOL)) }]); }
     if rng.chance(1, 2) { m["file"] = json!([*rng.pick(NAME_POOL)]); }
